@@ -7,6 +7,29 @@ from ..kernel import Boom, PullBudgetExceeded, summarize
 import lena.core
 
 
+class _AliveObjects(object):
+    """alive objects counted by identity (tokens compare equal by value, a WeakSet would
+    merge the copies of one token)"""
+
+    def __init__(self):
+        self._refs = {}
+
+    def add(self, obj):
+        k = id(obj)
+        refs = self._refs
+        refs[k] = weakref.ref(obj, lambda r, k=k: refs.pop(k, None))
+
+    def __len__(self):
+        return len(self._refs)
+
+    def clear(self):
+        self._refs.clear()
+
+
+# deep copies of tokens that are alive (Split copies its block for its branches)
+COPIES = _AliveObjects()
+
+
 class Tok(object):
     """Tiny value with a provenance serial.  Weak-referenceable, picklable,
     deep-copyable (a deep copy is registered as a copy, not an original).
@@ -25,7 +48,9 @@ class Tok(object):
         return Tok(self.serial, self.stage + 1, False, self.tag if tag is None else tag)
 
     def __deepcopy__(self, memo):
-        return Tok(self.serial, self.stage, False, self.tag)
+        t = Tok(self.serial, self.stage, False, self.tag)
+        COPIES.add(t)
+        return t
 
     def __copy__(self):
         return Tok(self.serial, self.stage, False, self.tag)
